@@ -181,7 +181,11 @@ def w_implicit(ctx, rng, idx):
     with probe.oracle():
         if list(g.ranks) != gen.max_ranks(dims, [1] * len(dims)):
             g = max_state(rng, dims, False)
-    ctx.describe({'op': scheme, 'dims': dims, 'markov': markov, 'complex': cplx, 'steps': hs, 'normalize': nz, 'tt_solver': tts, 'micro': micro})
+    same_obj = False
+    with probe.oracle():
+        if list(x0.ranks) == gen.max_ranks(dims, [1] * len(dims)) and rng.random() < 0.5:
+            g, same_obj = x0, True  # the initial value itself serves as initial guess: ONE object in two argument positions
+    ctx.describe({'op': scheme, 'dims': dims, 'markov': markov, 'complex': cplx, 'steps': hs, 'normalize': nz, 'tt_solver': tts, 'micro': micro, 'guess_is_initial_value': same_obj})
     fn = getattr(ode, scheme)
     ok, sol = call('ode.' + scheme, fn, A, x0, g, hs, prop=P, refusals=(np.linalg.LinAlgError,), tt_solver=tts, micro_solver=micro, normalize=nz, progress=False,
                    threshold=[0.0, 1e-14][int(rng.integers(0, 2))], repeats=int(rng.integers(1, 3)) if rng.random() < 0.9 else 0)
